@@ -518,6 +518,8 @@ class ArrayDomain(AffineDomain):
                     return Vec3(tuple(self.opaque("int", x) for x in v))
                 a = self.lift(a0)
                 return self.opaque("int", a) if a is not None else TOP
+            if last in ("ceil", "floor", "round", "rint") and isinstance(a0, Tup) and self.vec(a0) is not None:
+                a0 = Vec3(tuple(self.vec(a0)))
             if last in ("ceil", "floor", "round", "rint") and isinstance(a0, Vec3):
                 kind = {"rint": "round"}.get(last, last)
                 return Vec3(tuple(self.opaque(kind, x) for x in a0.items))
